@@ -37,7 +37,7 @@
   PROVED
   * `conj_tensordot_spared` — `conj` of a contraction = contraction of conjugates when FURTHER BOND LEGS `y`
     of the second tensor are spared by its flip set (weak guard): `braOf a xa · braOf b (xb ++ y)` is
-    observationally (`C09.ObsEq`: symmetry, index tables, charge, labels, stored sectors, every value)
+    observationally (`Lazy.ObsEq`: symmetry, index tables, charge, labels, stored sectors, every value)
     `braOf (a·b) y'`, `y' = AssocP.axesAB …` the images of `y` in `a·b`: the bra tensor of the composite
     in the remaining network.  [`dangOdd_result` replaces `dualOdd_result` in the sign identity
     `bra_pair_sign` of one aligned sector pair; `y = []`, strong guard: `conj_tensordot` of C10c via
@@ -54,7 +54,7 @@
   * `network_norm_chain3_routes` (scalars additionally `AddCommMonoid`, `AssocLaws`) — EIGHT ROUTES: the
     ket half as `(a·b)·c` or `a·(b·c)`, the bra half as `(ā·b̄)·c̄` or `ā·(b̄·c̄)`, the final call with the
     bra half left (`normSq K3`) or right (`normSq' K3`): all calls succeed, the right-nested halves are
-    `C04.Eqv` to the left-nested ones (S7 for chains under the weak guard, `chain_both`), every final
+    `Assoc3P.Eqv` (`C04.eqv_def`) to the left-nested ones (S7 for chains under the weak guard, `chain_both`), every final
     result has rank 0, no labels, the value `Σ|K3|²` (`full_congr`: congruence of the full contraction).
   * `network_norm_chain3_any_mode` (scalars `AddCommMonoid`, `0·x = x·0 = 0`) — the halves route with
     EVERY call in its own mode `md 0 … md 5` (`a·b`, `ā·b̄`, `(a·b)·c`, `(ā·b̄)·c̄`, the two final calls): all
@@ -72,7 +72,12 @@
     of all labels;
     `network_norm_chain_bracketings` (scalars `AddCommMonoid`, `AssocLaws`) — the same with the ket chain
     contracted along ANY bracketing tree `t` and the bra chain along ANY bracketing tree `tb`
-    (`C04.chain_bracketing` + `full_congr`).
+    (`C04.chain_bracketing` + `full_congr`);
+    `network_norm_chain_any_mode` (scalars `AddCommMonoid`, `0·x = x·0 = 0`) — the left-nested ket chain with
+    its `k`-th call in mode `mk k`, the left-nested bra chain with its `k`-th call in mode `mb k`
+    (`evalLM`, `compM`), the final calls in modes `m1`, `m2`: all calls succeed and give `normSq K` resp.
+    `normSq' K` of the BLOCKWISE chain `K` [joint induction `chain_conj_any_mode` on the blockwise pieces and
+    their zero-padded any-mode versions `NormNet.ModeInv`].
   * `chain3_needs_sparing` — negative control: flipping ALSO the bra-like bond leg of `b̄` towards `c`
     (`braOf b xb1` instead of `braOf b (xb1 ++ xb2)`) gives `-106582` instead of `Σ|K3|² = 117734` on a
     concrete chain.
@@ -80,13 +85,16 @@
   NOT COVERED (remaining)
   * further routes of the three-tensor network: the nested
     routes that absorb the bra tensors one at a time (`c̄·(b̄·(ā·K3))`: needs the triangle S7 of C04 with
-    the frames of NormNet13/18), operand-swapped halves; fused / auto mode for the right-nested halves;
+    the frames of NormNet13/18), operand-swapped halves; fused / auto mode for bracketings other than the left-nested one;
   * (2) bracketings of the two-tensor network that first contract a ket with a bra tensor
-    (`(ā·a)·(b̄·b)`, `((ā·a)·b̄)·b`): not attempted;
+    (`(ā·a)·(b̄·b)`, `((ā·a)·b̄)·b`): not attempted — these bracketings contain neither `a·b` nor `ā·b̄`, so
+    every derivation from the proved routes has to move a ket tensor past a bra tensor it is not bonded
+    to: S5 with its Koszul rotation on PRUNED intermediates (`C04.tdotF_swap_eqv` under the weak guard,
+    twice) plus two triangle S7 steps and S6 to absorb the rotations into the axes lists;
   * the other sequential bracketings with mixed orders in any mode (same argument as `tw_cross_any_mode`
     with another triangle); `netLabelsB` for more than two labels per tensor.
 -/
-import SymmModel.Proofs.NetNorm11
+import SymmModel.Proofs.NetNorm12
 import SymmModel.Props.C10g
 
 namespace SymmModel.C10
@@ -713,6 +721,95 @@ def braTree : Assoc4P.STree Int :=
 
 example : ChainNormB segA [segB, segC] ketTree braTree :=
   network_norm_chain_bracketings segA [segB, segC] ketTree braTree rfl rfl rfl rfl
+    ⟨by decide +kernel, rfl, by decide, by decide, by decide⟩ rfl
+    ⟨⟨rfl, by decide +kernel⟩, ⟨by decide +kernel, rfl, by decide, by decide, by decide⟩,
+      ⟨rfl, by decide +kernel⟩, ⟨by decide +kernel, rfl, by decide, by decide, by decide⟩, trivial⟩
+    rfl (OneKet.ketLabels (Or.inr ⟨1, rfl⟩))
+    (by
+      intro y hy
+      rcases List.mem_cons.mp hy with rfl | hy
+      · exact OneKet.ketLabels (Or.inr ⟨3, rfl⟩)
+      · rcases List.mem_cons.mp hy with rfl | hy
+        · exact OneKet.ketLabels (Or.inr ⟨5, rfl⟩)
+        · cases hy)
+    (by decide)
+
+/-! ### chains of any length in any mode -/
+
+section nchainM
+open SymmModel.Assoc3P SymmModel.Assoc4P
+variable {R : Type} [AddCommMonoid R] [Mul R] [Neg R] [Conj R] [NetLaws R]
+
+/-- vocabulary: a composition with the call in mode `m`; the left-nested contraction whose `j`-th call
+    runs in mode `md (k + j)` -/
+theorem evalLM_def (md : Nat → TdotMode) (k : Nat) (S y : Seg R) (ys : List (Seg R)) (m : TdotMode) :
+    NormNet.compM m S y
+        = (S.arr.tensordotF y.arr (.pair (S.r.map Int.ofNat) (y.l.map Int.ofNat)) m).map (fun z =>
+            ⟨z, RoutesP.positions (freeAxes S.arr.ndim S.r) S.l,
+              AssocP.axesAB S.arr.ndim y.arr.ndim S.r y.l y.r⟩)
+    ∧ NormNet.evalLM md k S [] = .ok S
+    ∧ NormNet.evalLM md k S (y :: ys) = (match NormNet.compM (md k) S y with
+        | .ok s => NormNet.evalLM md (k + 1) s ys
+        | .error e => .error e) := ⟨rfl, rfl, rfl⟩
+
+/-- `compM .blockwise` is `Seg.comp`: `evalLM` in blockwise mode is `evalL` -/
+theorem evalLM_blockwise (ys : List (Seg R)) (k : Nat) (S : Seg R) :
+    NormNet.evalLM (fun _ => .blockwise) k S ys = evalL S ys := by
+  induction ys generalizing k S with
+  | nil => rfl
+  | cons y ys ih =>
+    show (match NormNet.compM .blockwise S y with
+      | .ok s => NormNet.evalLM (fun _ => .blockwise) (k + 1) s ys
+      | .error e => .error e) = (match S.comp y with
+      | .ok s => evalL s ys
+      | .error e => .error e)
+    have : NormNet.compM .blockwise S y = S.comp y := rfl
+    rw [this]
+    cases S.comp y with
+    | error e => rfl
+    | ok s => exact ih (k + 1) s
+
+/-- **chain_conj_any_mode.**  The joint induction: blockwise pieces and their any-mode versions. -/
+theorem chain_conj_any_mode (hz1 : ∀ x : R, 0 * x = 0) (hz2 : ∀ x : R, x * 0 = 0)
+    (mk mb : Nat → TdotMode) (ys : List (Seg R)) (k : Nat) (S Sb Sm Sbm : Seg R) (F : List Index)
+    (H : NormNet.BraInv S Sb) (HM : NormNet.ModeInv S Sm F)
+    (HMb : NormNet.ModeInv Sb Sbm (F.map Index.conj))
+    (hnF : ∀ ix ∈ F, (ix.cm.map (·.1)).Nodup)
+    (h1 : linked S ys) (h2 : linked Sm ys) (h3 : linked Sb (ys.map NormNet.braSeg))
+    (h4 : linked Sbm (ys.map NormNet.braSeg))
+    (hket : ∀ y ∈ ys, KetLabels y.arr.oddpos)
+    (hd : (S.arr.oddpos ++ flatL ys).Pairwise (fun x y => x.1 ≠ y.1)) :
+    ∃ T Tb Tm Tbm F', evalL S ys = .ok T ∧ evalL Sb (ys.map NormNet.braSeg) = .ok Tb
+      ∧ NormNet.evalLM mk k Sm ys = .ok Tm
+      ∧ NormNet.evalLM mb k Sbm (ys.map NormNet.braSeg) = .ok Tbm
+      ∧ NormNet.BraInv T Tb ∧ NormNet.ModeInv T Tm F'
+      ∧ NormNet.ModeInv Tb Tbm (F'.map Index.conj)
+      ∧ (∀ ix ∈ F', (ix.cm.map (·.1)).Nodup)
+      ∧ ((lastD S ys).r = [] → T.r = []) :=
+  NormNet.chain_conjM hz1 hz2 mk mb ys k S Sb Sm Sbm F H HM HMb hnF h1 h2 h3 h4 hket hd
+
+/-- **network_norm_chain_any_mode.**  A chain of any length conjugated tensor by tensor, left-nested
+    halves, every contraction call in its own mode. -/
+theorem network_norm_chain_any_mode (hz1 : ∀ x : R, 0 * x = 0) (hz2 : ∀ x : R, x * 0 = 0)
+    (mk mb : Nat → TdotMode) (m1 m2 : TdotMode)
+    (S : Seg R) (ys : List (Seg R)) (hS : LeafOK S) (hl : S.l = [])
+    (hlink : linked S ys) (hlast : (lastD S ys).r = [])
+    (hketS : KetLabels S.arr.oddpos) (hket : ∀ y ∈ ys, KetLabels y.arr.oddpos)
+    (hd : (S.arr.oddpos ++ flatL ys).Pairwise (fun x y => x.1 ≠ y.1)) :
+    ∃ T Tm Tbm, evalL S ys = .ok T ∧ NormNet.evalLM mk 0 S ys = .ok Tm
+      ∧ NormNet.evalLM mb 0 (NormNet.braSeg S) (ys.map NormNet.braSeg) = .ok Tbm
+      ∧ (∃ r, Tbm.arr.tensordotF Tm.arr (allAxes T.arr.ndim) m1 = .ok r
+          ∧ r.ndim = 0 ∧ r.oddpos = [] ∧ r.elem [] [] = normSq T.arr)
+      ∧ (∃ r, Tm.arr.tensordotF Tbm.arr (allAxes T.arr.ndim) m2 = .ok r
+          ∧ r.ndim = 0 ∧ r.oddpos = [] ∧ r.elem [] [] = normSq' T.arr) :=
+  NormNet.network_norm_chainM hz1 hz2 mk mb m1 m2 S ys hS hl hlink hlast hketS hket hd
+
+end nchainM
+
+/-- the chain `gA – gB – gC` with all calls in the default mode
+    (`ChainNormM` abbreviates the conclusion of `network_norm_chain_any_mode`) -/
+example : ChainNormM segA [segB, segC] (fun _ => .auto) (fun _ => .auto) .auto .auto :=
+  network_norm_chain_any_mode Int.zero_mul Int.mul_zero _ _ _ _ segA [segB, segC]
     ⟨by decide +kernel, rfl, by decide, by decide, by decide⟩ rfl
     ⟨⟨rfl, by decide +kernel⟩, ⟨by decide +kernel, rfl, by decide, by decide, by decide⟩,
       ⟨rfl, by decide +kernel⟩, ⟨by decide +kernel, rfl, by decide, by decide, by decide⟩, trivial⟩
